@@ -442,7 +442,7 @@ func verifC08ConfRT(seed uint64) string {
 		}
 		defaults := &Path{}
 		gb.fill(reflect.ValueOf(defaults).Elem(), "defaults", false)
-		p2 := newPath(defaults, c2.OptionalPaths[name])
+		p2 := verifC08NewPath(name, defaults, c2.OptionalPaths[name])
 		verifC08Diff(reflect.ValueOf(p).Elem(), reflect.ValueOf(p2).Elem(), "paths."+name, &diffs)
 		// the optional form itself: marshal -> unmarshal
 		b3, err3 := json.Marshal(&op2)
@@ -600,6 +600,26 @@ func verifC08HCase(i int) string {
 		return verifC08HOp(lf, verifC08HQuote(verifC08HTexts[j]))
 	}
 	return verifC08HOp(lf, verifC08HTokens[j-len(verifC08HTexts)])
+}
+
+// verifC08NewPath calls the unexported newPath through reflection so that the harness keeps building when its signature
+// changes (a tree in which newPath also takes the map key must yield a replayable verdict, not a build break).
+func verifC08NewPath(name string, defaults *Path, optional *OptionalPath) *Path {
+	f := reflect.ValueOf(newPath)
+	var args []reflect.Value
+	for i := 0; i < f.Type().NumIn(); i++ {
+		switch f.Type().In(i) {
+		case reflect.TypeOf(""):
+			args = append(args, reflect.ValueOf(name))
+		case reflect.TypeOf(defaults):
+			args = append(args, reflect.ValueOf(defaults))
+		case reflect.TypeOf(optional):
+			args = append(args, reflect.ValueOf(optional))
+		default:
+			panic("verif: newPath has a parameter of unknown type " + f.Type().In(i).String())
+		}
+	}
+	return f.Call(args)[0].Interface().(*Path)
 }
 
 // ---------- generator ----------
